@@ -298,7 +298,7 @@ def check_c02(ctx):
 
 def check_c09(ctx):
     q = ctx.tier == "quick"
-    mc = {"SUBS": "", "RELOADS": 2, "TOUCH": 1} if q else {"SUBS": ', "s2"', "RELOADS": 2, "TOUCH": 1}
+    mc = {"SUBS": "", "RELOADS": 2, "TOUCH": 1} if q else {"SUBS": "", "RELOADS": 3, "TOUCH": 1}
     ctx.cov["constants"]["MC_Reload"] = mc
     ctx.tlc_must_pass("Balancer", "Reload", "MC_Reload.cfg", defines=mc, timeout=2400)
     g = {"RELOADS": 4, "TOUCH": 4, "OPS": 12}
@@ -425,8 +425,35 @@ def run_health(ctx, cases):
     ctx.sample({"script": cases[0], "recorded": [e for e in events if e["cid"] == cases[0]["id"]][:10]})
 
 
+def slowstart_cases(ctx, num):
+    """Least-connection picks while a restarted backend's weight ramps up (slow start): seeded scenarios in real time."""
+    import random
+    rnd = random.Random(ctx.seed * 53 + 4)
+    out = []
+    for _ in range(num):
+        n = rnd.randint(2, 4)
+        w = [rnd.randint(1, 3) for _ in range(n)]
+        ops = [{"op": "load", "n": n, "ord": list(range(1, n + 1)), "w": w}]
+        for b in range(1, n + 1):
+            for _ in range(rnd.randint(0, 6)):
+                ops.append({"op": "conn", "b": b, "d": 1})
+        ops.append({"op": "slowstart", "b": rnd.randint(1, n), "t": 1})
+        for _ in range(rnd.randint(15, 30)):
+            ops.append({"op": "sleep", "t": rnd.randint(10, 60)})
+            ops.append({"op": "pick", "algo": rnd.choice(["wlc_smooth", "wlc_simple"]), "r": 0})
+            if rnd.random() < 0.3:
+                ops.append({"op": "conn", "b": rnd.randint(1, n), "d": 1})
+        out.append({"ops": ops})
+    return out
+
+
 def check_c04(ctx):
     check_all(ctx, {"ReplyOK", "unknown-backend"}, "C04")
+    q = ctx.tier == "quick"
+    run_cases(ctx, slowstart_cases(ctx, 12 if q else 120), twin=False, label="C04-slowstart", decisive={"ReplyOK", "unknown-backend"})
+    ctx.cov["rule"] += (" Plus seeded slow-start scenarios in real time (a restarted backend's effective weight ramps up): the "
+                        "effective weights are read before and after each least-connection pick and the reply must be minimal "
+                        "for some weight vector between the two readings (TraceSlb.RangeOK).")
 
 
 def run_conc(ctx, cases):
